@@ -604,6 +604,13 @@ def call(I, fr, name, fname, k, args, depth):
         return err(call_closure(I, args[1], [], depth))
     if name.endswith("hint::must_use"):
         return args[0]
+    if name.endswith("str::converts::from_utf8") or name.endswith("str::from_utf8"):
+        sl = as_slice(I, args[0])
+        try:
+            bytes(sl.heap[sl.start:sl.start + sl.len]).decode("utf-8")
+            return ok(sl)
+        except UnicodeDecodeError:
+            return err(Opaque("Utf8Error"))
     if name.endswith("string::String::from_utf8_lossy") or name.endswith("Cow::<'_, B>::into_owned") or name.endswith("borrow::Cow::<'_, B>::into_owned") or name.endswith("fmt::format") or "fmt::Arguments" in name or "fmt::rt::Argument" in name or name.endswith("string::ToString>::to_string") or name.endswith("ToString::to_string"):
         return Opaque("string")
     if name.endswith("slice::<impl [T]>::iter"):
